@@ -4,7 +4,7 @@
    model:   what harness/hobjsrv prints: step observations joined by ';', step = res|L|C|X1|X2|T
    spec:    the same from the flat map, without the T section (tree shapes are not constrained);
             a successful removal is OK there (matches T and F: the returned flag is not constrained)
-   class:   the first known-deviation class the history runs into, or '-'                          *)
+   class:   always '-' (no known-deviation class is left)                                          *)
 From ZV Require Import Base.Bytes Base.Res C24.Ops C24.Model C24.Spec.
 
 Definition universe : list bytes := [B "/"; B "/a"; B "/a/b"; B "/a/b/c"; B "/x"; B "/ab"].
@@ -139,12 +139,6 @@ Fixpoint spec_trace (s : smap) (h : list op) : list bytes :=
   | o :: r => let '(s1, x) := spec_step s o in (res_tok x ++ B "|" ++ observe_spec s1) :: spec_trace s1 r
   end.
 
-Definition class_tok (d : option dev24) : bytes :=
-  match d with
-  | None => dash
-  | Some ManagerDropped => B "manager_dropped"
-  end.
-
 Definition semi := B ";".
 
 Definition run_case (line : bytes) : outp :=
@@ -155,7 +149,7 @@ Definition run_case (line : bytes) : outp :=
         | Some h =>
             {| o_model := join semi ((B "-|" ++ observe_model root0) :: model_trace root0 h);
                o_spec := join semi ((B "-|" ++ observe_spec []) :: spec_trace [] h);
-               o_class := class_tok (first_flag [] h) |}
+               o_class := dash |}
         | None => bad_case
         end
       else bad_case
